@@ -41,10 +41,10 @@ CHECKS = {
     ),
     "C05": dict(
         category="other",
-        technique="Kani full-domain harnesses on the extracted ExecutionStateMachine transition functions (contract = total transition relation)",
+        technique="Kani full-domain harnesses on the extracted ExecutionStateMachine transition functions (contract = total transition relation); Kani harnesses on the extracted App::process_proposal and App::finalize_block with the application state modelled as the ordered log of state-changing steps",
         text="Decides only the part of the property that lives in the execution-state machine: check_if_prepared_proposal returns true iff the cached proposal equals the request in every one of its seven fields, check_if_executed_block true iff the hash is the executed block's, "
-             "set_executed_block succeeds only from Unset/PreparedValid, errors leave the machine unchanged and the two mismatch states are absorbing, for all states and requests. Path-independence of execution below the machine is NOT decided.",
-        note="level other: a per-function proof of the skip/re-execute decision, not of determinism. Trusted: Kani/CBMC, small finite stand-ins for tendermint types. Not under contract: App::process_proposal/finalize_block skeleton, the order of oracle price application vs. transaction execution on cached vs. fresh paths (candidate K2, DESIGN §7), HashMap iteration, storage.",
+             "set_executed_block succeeds only from Unset/PreparedValid, errors leave the machine unchanged and the two mismatch states are absorbing, for all states and requests. App skeleton: for a decided block the validator path (ProcessProposal, then FinalizeBlock served from the cache) and the syncing path (FinalizeBlock alone) apply the same steps in the same order and return the same app hash, events and transaction results — discharged for blocks without oracle prices (up to 1 transaction quick, 2 thorough); for blocks carrying prices the obligation fails and is the listed known finding K2. Determinism below the skeleton is NOT decided.",
+        note="level other: a per-function proof of the skip/re-execute decision, not of determinism. Trusted: Kani/CBMC, small finite stand-ins for tendermint types. Steps below the skeleton (pre-execution, transaction execution, post-execution, price application, commit) are logged stand-ins and nothing is assumed to commute; the ExecutionStateMachine stand-in in unit c05_paths transcribes the relation proved in c05_execution_state. Not under contract: prepare_proposal's own cached path, commit, multi-round histories, HashMap iteration, storage.",
     ),
     "C06": dict(
         category="proof",
@@ -54,10 +54,10 @@ CHECKS = {
     ),
     "C07": dict(
         category="other",
-        technique="Kani harnesses on the extracted receiver-side binding functions (conductor reconstruct, astria-core do_rollup_transactions_match_root) with Merkle audits as logged opaque predicates",
-        text="Decides the receiver-side binding only: rollup data is attached to metadata (conductor) or accepted for a block (astria-core) only through an audit of the data's own proof against that metadata's/header's root over the leaf rollup_id ‖ MTH(its own transactions); "
-             "a header is consumed only by a blob with the same block hash that passed that audit. With C08 (a verifying proof fixes leaf and path under H-inj) this gives tamper evidence for alteration and re-attribution.",
-        note="level other. Trusted: Kani/CBMC, opaque audit predicate, MTH as an uninterpreted function. NOT covered: builder side (commitment generation, try_build), gRPC filtering, split_for_celestia, the try_from_raw constructors, ordering/completeness of rollup data.",
+        technique="Kani harnesses on the extracted receiver-side binding functions (conductor reconstruct, astria-core do_rollup_transactions_match_root) with Merkle audits as logged opaque predicates; Kani harnesses on the extracted builder side (sequencer generate_rollup_datas_commitment, astria-core group_rollup_data_submissions_by_rollup_id / derive_merkle_tree_from_rollup_txs / SequencerBlockBuilder::try_build) with fixed-capacity map/list stand-ins",
+        text="Receiver side: rollup data is attached to metadata (conductor) or accepted for a block (astria-core) only through an audit of the data's own proof against that metadata's/header's root over the leaf rollup_id ‖ MTH(its own transactions); "
+             "a header is consumed only by a blob with the same block hash that passed that audit. With C08 (a verifying proof fixes leaf and path under H-inj) this gives tamper evidence for alteration and re-attribution. Builder side (bounded block shapes): the block builder accepts exactly the commitments the sequencer generates for the same transactions and deposits (whatever the deposit map iteration order), stores per rollup exactly that rollup's payloads in block order followed by its deposits, lists exactly the rollups with data in ascending id order, attaches to each the proof of its own leaf id ‖ MTH(its data), and refuses mismatching commitments.",
+        note="level other. Trusted: Kani/CBMC, opaque audit predicate, MTH as an uninterpreted function. Builder side is bounded (<= 2 data submissions over 3 rollup ids, deposits for <= 2 rollups) and uses stand-ins for IndexMap/HashMap/Vec/merkle::Tree and the block structs. NOT covered: gRPC filtering, split_for_celestia, the try_from_raw constructors.",
     ),
     "C08": dict(
         category="proof",
